@@ -58,6 +58,18 @@ Theorem C14_chain_state_getters :
 Proof. exact chain_state_getters. Qed.
 Print Assumptions C14_chain_state_getters.
 
+(** Restarts anywhere in a history change nothing: the monitor is restored from exactly what
+    it persisted (state, watches, seen), so the best-chain theorem holds with restarts. *)
+Theorem C14_best_chain_restarts :
+  forall (g : cfg) (h0 : N) (rops : list rop),
+    hist_ok g [] (deliveries rops) -> h0 + count_adds (deliveries rops) <= U32MAX ->
+    exists m m',
+      run_r repaired g (init_mon g h0) rops = Ok m
+      /\ run_adds g (init_mon g h0) (best_chain (deliveries rops)) = Ok m'
+      /\ norm m = norm m'.
+Proof. intros g h0 rops. rewrite restarts_transparent. apply best_chain_thm. Qed.
+Print Assumptions C14_best_chain_restarts.
+
 (** Processing an admissible history never aborts: neither a connection nor a disconnection. *)
 Theorem C14_no_abort :
   forall (g : cfg) (h0 : N) (ops : list op),
